@@ -14,6 +14,7 @@ import (
 	"errors"
 	"fmt"
 	"math/big"
+	"strconv"
 	"strings"
 	"time"
 	"unicode/utf16"
@@ -61,6 +62,9 @@ func rsaBits(alg string) int {
 		return 4096
 	case "RSA-8192":
 		return 8192
+	case "RSA-1536", "RSA-1280": // sizes gopki has no name for; another tool's key may have any size
+		n, _ := strconv.Atoi(alg[4:])
+		return n
 	}
 	return 0
 }
